@@ -100,6 +100,13 @@ int parse_instruction_pic18(AsmContext *asm_context, char *instr)
     {
       token_type = tokens_get(asm_context, token, TOKENLEN);
 
+      // tblrd*+ is the longest form.
+      if (strlen(instr_case) > 7)
+      {
+        print_error_unexp(asm_context, token);
+        return -1;
+      }
+
       if (IS_TOKEN(token, '*'))
       {
         strcat(instr_case, token);
